@@ -24,6 +24,9 @@ P = {
  "C06": dict(tie="hand model + end-to-end correspondence against the real clock",
    text="Model of v4_check_presigned_url. Theorems for every hash/provider/calendar: an accepted URL has each of the six X-Amz-* parameters exactly once, the current time inside [signing time - 900 s, signing time + X-Amz-Expires] (nanosecond arithmetic over Z), credential date = X-Amz-Date, and X-Amz-Signature equal to the signature over method, path, all other query parameters and the listed signed headers; calendar bijection for all years (era-exhaustive vm_compute lifted by periodicity). Tied to the code by reference-presigned URLs placed before/inside/after the window with >= 30 s margins and every parameter mutation/duplication/removal, each compared with the model evaluated at the send time.",
    note="Trusted: Coq kernel; hand model; the time crate's calendar (modelled by Calendar.v, compared on every request); the wall clock with margins (the boundary second itself is decided by the theorem, not observed); harness. No axioms."),
+ "C07": dict(tie="hand model (composed Service.call) + trace correspondence",
+   text="The control flow of prepare/call/Operation::call is modelled as one total function over the sub-models (addressing, query, V2/V4/POST signature checks, router, hooks) returning the ordered event trace and the outcome. Theorems for every request, configuration, clock, hash, route table and deserialization oracle: (gate) with a provider, backend/route run only under the accepted signer's identity or, for signature-less requests, only after a custom access hook approved; (identity) every event shows exactly that identity; (order) route < access hook < typed hook < backend, each at most once; denials and refused signatures stop processing with no event; (no provider) anything presenting a signature is refused. Tied to the code by comparing recorded event traces (recording S3Auth/S3Access/S3Route/S3) with the model over all authentication forms x validity x 96 configurations x 14 operations.",
+   note="Trusted: Coq kernel; the hand model Service.v and its sub-models; the route table translator (C01); harness with generated recording backend and hooks. The typed-input deserializer is an oracle here (C02). No axioms."),
  "C08": dict(tie="hand model + correspondence check",
    text="AwsChunkedStream rendered as a frame-driven state machine (phases = await points); theorem for every signing function, input and framing: delivered bytes are the data of a chain of chunks each verified against the previous signature from the seed, and a successful end implies a verified zero-length last chunk and the declared total; tampering reduced to a collision of the signing function; framing independence. Tied to the code by running the real stream (hook) and the model (Gallina HMAC-SHA256) on reference-encoded bodies with single faults under many framings.",
    note="Trusted: Coq kernel; hand model of aws_chunked_stream.rs incl. nom's hex_u32/take semantics; Gallina SHA-256/HMAC (validated by the AWS example on every run); harness. Collision resistance of HMAC-SHA256 is a named hypothesis, not assumed in any theorem. The converse (every complete upload is accepted) is checked by correspondence only. No axioms."),
